@@ -524,7 +524,7 @@ Section ChanStep.
   Hypothesis Hk : c_kind c' = c_kind c.
   Hypothesis Hconn : c_conn c' = c_conn c.
   Hypothesis Hscid : c_scid c' = c_scid c.
-  Hypothesis Hlive : c_live c' = c_live c.
+  Hypothesis Hlive : c_kind c = KLe -> c_st c = SConnecting -> c_live c' = c_live c.
   Hypothesis Hfacts : chan_facts c'.
   Hypothesis Hreg : in_use m u c' = true -> in_use m u c = true.
   Hypothesis Hchs : m_chs m' = if in_use m u c' then m_chs m
@@ -540,6 +540,7 @@ Section ChanStep.
                                        c_cw c' = None /\ c_dw c' = None.
   Hypothesis Hreqs : m_reqs m' = if keepreq then m_reqs m else tdel (c_conn c) (c_ref c) (m_reqs m).
   Hypothesis Hkeep : keepreq = true -> c_kind c = KLe -> c_st c = SConnecting ->
+                     tget (c_conn c) (c_ref c) (m_reqs m) = Some (c_scid c) ->
                      c_st c' = SConnecting /\ c_ref c' = c_ref c /\ c_cw c' = c_cw c.
   Hypothesis Hw : forall w, wget m' w =
                     if is_uid (c_cw c) w && negb (is_uid (c_cw c') w) then option_map (wres1 o1) (wget m w)
@@ -609,10 +610,11 @@ Section ChanStep.
       destruct (Z.eqb_spec u0 u) as [->|Hn].
       + rewrite Hu in R2. inversion R2; subst c0. destruct (chs_self m u c h k I Hu R1) as [-> ->].
         destruct keepreq eqn:Ek.
-        * destruct (Hkeep eq_refl R3 R4) as (S1 & S2 & S3). exists u, c'. rewrite Hheap, Z.eqb_refl.
+        * assert (Hmine : tget (c_conn c) (c_ref c) (m_reqs m) = Some (c_scid c)) by (now rewrite R5).
+          destruct (Hkeep eq_refl R3 R4 Hmine) as (S1 & S2 & S3). exists u, c'. rewrite Hheap, Z.eqb_refl.
           assert (Hin : in_use m u c = true) by (apply Hregc; auto).
           assert (Hin' : in_use m u c' = true).
-          { unfold in_use in *. rewrite S1, S3, Hlive. now rewrite R4 in Hin. }
+          { unfold in_use in *. rewrite S1, S3, (Hlive R3 R4). now rewrite R4 in Hin. }
           rewrite Hchs, Hin'. repeat split; auto; congruence.
         * rewrite Hreqs, tget_tdel in H. subst id. rewrite !Z.eqb_refl in H. discriminate.
       + exists u0, c0. rewrite Hheap. destruct (Z.eqb_spec u0 u); [congruence|]. repeat split; auto.
@@ -703,7 +705,7 @@ Proof.
   - reflexivity.
   - reflexivity.
   - reflexivity.
-  - reflexivity.
+  - intros _ _; reflexivity.
   - unfold chan_facts; cbn. split; [exact F1|split; [exact F2|split; [|split; [exact F4|exact F5]]]].
     intros ->. destruct Hd as [A B]; auto. repeat split; auto. eapply live_of_open; eauto. left. now rewrite B.
   - auto.
@@ -777,7 +779,7 @@ Proof.
   - exact E1.
   - exact E2.
   - exact E3.
-  - exact E4.
+  - intros _ _; exact E4.
   - unfold chan_facts. rewrite E6, E7, E5, Hcw.
     split; [discriminate|split; [discriminate|split; [|split; [cbn; auto|rewrite E1, Ek; reflexivity]]]].
     intros Hd; destruct (E10 Hd) as [Hf Hd']; destruct (F3 Hd') as (_ & _ & Hc); exfalso; now apply Hs3.
@@ -852,7 +854,7 @@ Proof.
   - exact E1.
   - exact E2.
   - exact E3.
-  - exact E4.
+  - intros _ _; exact E4.
   - exact Hf.
   - congruence.
   - autorewrite with acc. rewrite Hin. destruct (in_use m u c); reflexivity.
@@ -923,7 +925,7 @@ Section Closed.
     assert (Hle' : le_reg c' = false).
     { unfold le_reg. destruct (c_kind c'); auto. destruct (c_st c'); try discriminate; cbn; apply andb_false_r. }
     pose proof (inv_chan_facts m u c I Hu) as (F1 & F2 & F3 & F4 & F5).
-    refine (inv_chan_step m m' u c c' o1 o2 keepreq I Hu Hheap Hk Hconn Hscid Hlive _ _ _ _ _ _ Hpend _ Hreqs _ _ Ho1 Ho2 _ _).
+    refine (inv_chan_step m m' u c c' o1 o2 keepreq I Hu Hheap Hk Hconn Hscid (fun _ _ => Hlive) _ _ _ _ _ _ Hpend _ Hreqs _ _ Ho1 Ho2 _ _).
     - unfold chan_facts. rewrite Hcw', Hdw'.
       split; [discriminate|split; [discriminate|split; [|split]]].
       + intros Hd. destruct (Hdr Hd) as [A B]. destruct (F3 A) as (_ & _ & C). congruence.
@@ -1058,18 +1060,81 @@ Proof.
   - intros w. now autorewrite with acc.
 Qed.
 
-Lemma inv_abort m u : Inv m -> ev_ok m (EAbort u) = true -> Inv (abort_chan m u).
+(* accessors of le_open_abandoned *)
+Lemma hget_loa m u c u' : hget (le_open_abandoned m u c) u' = hget m u'.
+Proof. unfold le_open_abandoned. repeat destruct (is_uid _ _); reflexivity. Qed.
+Lemma wget_loa m u c w : wget (le_open_abandoned m u c) w = wget m w.
+Proof. unfold le_open_abandoned. repeat destruct (is_uid _ _); reflexivity. Qed.
+Lemma le_loa m u c : m_le (le_open_abandoned m u c) = m_le m.
+Proof. unfold le_open_abandoned. repeat destruct (is_uid _ _); reflexivity. Qed.
+Lemma pend_loa m u c : m_pend (le_open_abandoned m u c) = m_pend m.
+Proof. unfold le_open_abandoned. repeat destruct (is_uid _ _); reflexivity. Qed.
+Lemma ids_loa m u c : m_ids (le_open_abandoned m u c) = m_ids m.
+Proof. unfold le_open_abandoned. repeat destruct (is_uid _ _); reflexivity. Qed.
+Lemma reqs_loa m u c : m_reqs (le_open_abandoned m u c) =
+  if is_uid (tget (c_conn c) (c_ref c) (m_reqs m)) (c_scid c) then tdel (c_conn c) (c_ref c) (m_reqs m) else m_reqs m.
+Proof. unfold le_open_abandoned. repeat destruct (is_uid _ _); reflexivity. Qed.
+Lemma chs_loa m u c : m_chs (le_open_abandoned m u c) =
+  if is_uid (tget (c_conn c) (c_scid c) (m_chs m)) u then tdel (c_conn c) (c_scid c) (m_chs m) else m_chs m.
 Proof.
-  intros I Hok. unfold abort_chan. cbn in Hok.
+  unfold le_open_abandoned.
+  destruct (is_uid (tget (c_conn c) (c_ref c) (m_reqs m)) (c_scid c)); cbn;
+    destruct (is_uid (tget (c_conn c) (c_scid c) (m_chs m)) u); reflexivity.
+Qed.
+#[export] Hint Rewrite hget_loa wget_loa le_loa pend_loa ids_loa reqs_loa chs_loa : acc.
+#[export] Hint Rewrite wget_loa : accw.
+
+(* a pending LE open is given up (abort() of the connecting channel, or the caller cancels the
+   awaiting task): the channel is unregistered, its request forgotten, its future cancelled *)
+Lemma inv_le_abandon m u c w f :
+  Inv m -> hget m u = Some c -> c_kind c = KLe -> c_st c = SConnecting -> c_cw c = Some w ->
+  c_kind (f c) = c_kind c -> c_conn (f c) = c_conn c -> c_scid (f c) = c_scid c -> c_dcid (f c) = c_dcid c ->
+  c_live (f c) = c_live c -> c_st (f c) = c_st c -> c_ref (f c) = c_ref c -> c_cw (f c) = None ->
+  c_dw (f c) = c_dw c -> (c_drained (f c) = false -> c_drained c = false) ->
+  Inv (le_open_abandoned (hupd (wres m w O_CANCELLED) u f) u c).
+Proof.
+  intros I Hu Ek Es Hcw E1 E2 E3 E4 E5 E6 E7 E8 E9 E10.
+  pose proof (inv_chan_facts m u c I Hu) as F. pose proof F as (F1 & F2 & F3 & F4 & F5).
+  destruct (F1 w Hcw) as [El _].
+  assert (Hin : in_use m u c = true) by (unfold in_use; now rewrite El, Es, Hcw).
+  assert (Hin' : in_use m u (f c) = false) by (unfold in_use; rewrite E6, Es, E8; apply andb_false_r).
+  assert (Hle : le_reg c = false) by (unfold le_reg; rewrite Ek, Es; apply andb_false_r).
+  assert (Hle' : le_reg (f c) = false) by (unfold le_reg; rewrite E1, Ek, E6, Es; apply andb_false_r).
+  assert (Hdw : c_dw c = None) by (apply no_dw_unless; auto; now rewrite Ek, Es).
+  refine (inv_chan_step m _ u c (f c) O_CANCELLED O_ERROR
+            (negb (is_uid (tget (c_conn c) (c_ref c) (m_reqs m)) (c_scid c))) I Hu _ E1 E2 E3 (fun _ _ => E5) _ _ _ _ _ _ _ _ _ _ _ _ _ _ _).
+  - t_heap Hu.
+  - unfold chan_facts. rewrite E8, E9, Hdw, E6, E1, E5.
+    split; [discriminate|split; [discriminate|split; [|split; [exact F4|exact F5]]]].
+    intros Hd. destruct (F3 (E10 Hd)) as (_ & _ & B). congruence.
+  - congruence.
+  - autorewrite with acc. now rewrite (is_uid_chs m u c I Hu), Hin, Hin'.
+  - autorewrite with acc. now rewrite Hle, Hle'.
+  - congruence.
+  - congruence.
+  - autorewrite with acc. reflexivity.
+  - congruence.
+  - autorewrite with acc. destruct (is_uid _ _); reflexivity.
+  - intros Hk _ _ Hr. rewrite Hr in Hk. cbn in Hk. rewrite Z.eqb_refl in Hk. discriminate.
+  - intros w0. autorewrite with accw. rewrite wget_wres, Hcw, E8, E9, Hdw. cbn. rewrite andb_true_r, Z.eqb_sym. reflexivity.
+  - discriminate.
+  - discriminate.
+  - auto.
+  - right. congruence.
+Qed.
+
+Lemma inv_abort m u : Inv m -> Inv (abort_chan m u).
+Proof.
+  intros I. unfold abort_chan.
   destruct (hget m u) as [c|] eqn:Hu; [|auto].
   pose proof (inv_chan_facts m u c I Hu) as F. pose proof F as (F1 & F2 & F3 & F4 & F5).
   destruct (c_kind c) eqn:Ek.
   - (* LE *)
-    assert (Hcw : c_cw c = None).
-    { apply no_cw_unless; auto. rewrite Ek. destruct (c_st c); auto; discriminate. }
-    rewrite Hcw. cbn [wres_opt].
     destruct (le_open_st (c_st c)) eqn:Eo.
     + (* closing *)
+      assert (Hcw : c_cw c = None).
+      { apply no_cw_unless; auto. rewrite Ek. destruct (c_st c); auto; discriminate. }
+      rewrite Hcw. cbn [wres_opt wpending].
       assert (El : c_live c = true) by (eapply live_of_open; eauto).
       assert (Hin : in_use m u c = true) by (unfold in_use; rewrite El; destruct (c_st c); try discriminate; auto).
       replace (match c_st c with SConnected | SDisconnecting => true | _ => false end) with true
@@ -1084,14 +1149,23 @@ Proof.
       * autorewrite with acc. reflexivity.
       * intros _ _ E. rewrite E in Eo. discriminate.
       * intros w. autorewrite with accw. rewrite Hcw. reflexivity.
-    + (* not open: only the output queue is flushed *)
+    + (* not open *)
       replace (match c_st c with SConnected | SDisconnecting => true | _ => false end) with false
         by (destruct (c_st c); try discriminate; auto).
       assert (Hdw : c_dw c = None).
       { apply no_dw_unless; auto. rewrite Ek. destruct (c_st c); auto; discriminate. }
-      rewrite Hdw. cbn [wres_opt].
-      apply (inv_hupd_fun m u c _ Hu). rewrite (set_same_cw c Hcw), (set_same_dw c Hdw).
-      apply inv_out; auto. discriminate.
+      rewrite Hdw.
+      destruct (c_cw c) as [w|] eqn:Hcw.
+      * (* still connecting: the pending open is given up *)
+        destruct (F1 w eq_refl) as [El Hs].
+        assert (Es : c_st c = SConnecting) by (destruct (c_st c); try discriminate; auto).
+        pose proof (wpending_cw m u c w I Hu Hcw) as Hp. rewrite Hcw in Hp. rewrite Hp. cbn [wres_opt].
+        apply (inv_le_abandon m u c w (fun c => flush_output (set_dw (set_cw c None) None))); auto.
+        discriminate.
+      * (* only the output queue is flushed *)
+        cbn [wres_opt wpending].
+        apply (inv_hupd_fun m u c _ Hu). rewrite (set_same_cw c Hcw), (set_same_dw c Hdw).
+        apply inv_out; auto. discriminate.
   - (* classic *)
     destruct (cl_abortable_st (c_st c)) eqn:Eo.
     + assert (El : c_live c = true) by (eapply live_of_open; eauto).
@@ -1182,8 +1256,10 @@ Proof.
   destruct (tget h dcid (m_chs m)) as [u|] eqn:Et; [|auto].
   destruct (hget m u) as [c|] eqn:Hu; [|auto].
   destruct (chs_self m u c h dcid I Hu Et) as [-> ->].
+  destruct (Z.eqb_spec scid (c_dcid c)) as [->|Hne]; cbn [negb]; [|auto].
   destruct (c_kind c) eqn:Ek; cbn [fst].
-  - apply (inv_le_closed m u c true); auto; try discriminate; destruct (c_st c); congruence.
+  - apply (inv_le_closed m u c true); auto; try discriminate;
+      intros Es; rewrite Es in Hok; rewrite ?Z.eqb_refl in Hok; discriminate.
   - apply inv_cl_disc_req; auto.
 Qed.
 
@@ -1198,8 +1274,9 @@ Proof.
   - destruct (c_st c) eqn:Es; auto.
     destruct (Z.eqb dcid (c_dcid c) && Z.eqb (c_scid c) (c_scid c)); cbn [negb fst]; auto.
     apply (inv_le_closed m u c false); auto; congruence.
-  - destruct (Z.eqb dcid (c_dcid c) && Z.eqb (c_scid c) (c_scid c)); cbn [negb fst] in *; auto.
-    apply inv_cl_disc_rsp; auto. destruct (c_st c); auto; discriminate.
+  - destruct (c_st c) eqn:Es; auto.
+    destruct (Z.eqb dcid (c_dcid c) && Z.eqb (c_scid c) (c_scid c)); cbn [negb fst] in *; auto.
+    apply inv_cl_disc_rsp; auto.
 Qed.
 
 Lemma inv_recv_credit m h cid n : Inv m -> Inv (fst (recv_credit m h cid n)).
@@ -2479,16 +2556,82 @@ Proof.
   apply inv_pend_done; auto. destruct (Z.eqb result R_OK); discriminate.
 Qed.
 
+(* ================================================================== the caller cancels an awaited call *)
+Lemma wget_m_eq m w : wget_m m w = wget m w.
+Proof. reflexivity. Qed.
+
+Lemma inv_cancel m w : Inv m -> Inv (do_cancel m w).
+Proof.
+  intros I. unfold do_cancel. rewrite wget_m_eq.
+  destruct (wget m w) as [x|] eqn:Hx; [|auto].
+  destruct (Z.eqb_spec (w_out x) O_PENDING) as [Hp|Hp]; cbn [negb]; [|auto].
+  pose proof (w_own m I w x Hx Hp) as O.
+  destruct (w_kind x) eqn:Ek.
+  - (* create_le_credit_based_channel / create_classic_channel *)
+    destruct O as [c [Hu Hcw]]. rewrite Hu, Hcw. cbn [is_uid]. rewrite Z.eqb_refl.
+    pose proof (inv_chan_facts m (w_ref x) c I Hu) as F. pose proof F as (F1 & F2 & F3 & F4 & F5).
+    destruct (F1 w Hcw) as [El Hs].
+    destruct (c_kind c) eqn:Ekc.
+    + assert (Es : c_st c = SConnecting) by (destruct (c_st c); try discriminate; auto).
+      apply (inv_le_abandon m (w_ref x) c w (fun c => set_cw c None)); auto.
+    + (* classic: the channel keeps its state and is no longer managed *)
+      set (u := w_ref x) in *.
+      assert (Hin : in_use m u c = true).
+      { unfold in_use. rewrite El, Hcw. destruct (c_st c); try discriminate; reflexivity. }
+      assert (Hdw : c_dw c = None).
+      { apply no_dw_unless; auto. rewrite Ekc. destruct (c_st c); try discriminate; reflexivity. }
+      assert (Hle : le_reg c = false) by (unfold le_reg; now rewrite Ekc).
+      refine (inv_chan_step m _ u c (set_live (set_cw c None) false) O_CANCELLED O_ERROR true I Hu
+                _ _ _ _ _ _ _ _ _ _ _ _ _ _ _ _ _ _ _ _); cbn; auto; try discriminate.
+      * t_heap Hu.
+      * intros K; congruence.
+      * unfold chan_facts; cbn. rewrite Hdw, Ekc.
+        split; [discriminate|split; [discriminate|split; [|split]]].
+        -- intros Hd. destruct (F3 Hd) as (K & _). congruence.
+        -- intros _. destruct (c_st c); try discriminate; auto.
+        -- exact F5.
+      * autorewrite with acc. now rewrite Hin.
+      * autorewrite with acc. unfold le_reg; cbn. now rewrite Ekc.
+      * unfold le_reg at 2; cbn. rewrite Ekc. discriminate.
+      * autorewrite with acc. reflexivity.
+      * intros E. rewrite E in Hs. discriminate.
+      * autorewrite with acc. reflexivity.
+      * intros _ K; congruence.
+      * intros w0. autorewrite with accw. rewrite wget_wres, Hcw, Hdw. cbn. rewrite andb_true_r, Z.eqb_sym. reflexivity.
+  - (* create_enhanced_credit_based_channels *)
+    destruct O as [us Hus]. rewrite Hus, Z.eqb_refl. unfold enh_finish.
+    destruct (inv_enh_each (w_conn x) (w_ref x) false 0 us m [] w I Hus) as [I1 P1]; [discriminate|].
+    apply inv_pend_done; auto. discriminate.
+  - (* disconnect() *)
+    destruct O as [c [Hu Hdw]]. rewrite Hu, Hdw. cbn [is_uid]. rewrite Z.eqb_refl.
+    pose proof (inv_chan_facts m (w_ref x) c I Hu) as F. pose proof F as (F1 & F2 & F3 & F4 & F5).
+    destruct (F2 w Hdw) as [El Hs]. set (u := w_ref x) in *.
+    assert (Hcw : c_cw c = None).
+    { apply no_cw_unless; auto. destruct (c_kind c), (c_st c); try discriminate; reflexivity. }
+    refine (inv_chan_step m _ u c (set_dw c None) O_ERROR O_CANCELLED true I Hu
+              _ _ _ _ _ _ _ _ _ _ _ _ _ _ _ _ _ _ _ _); cbn; auto; try discriminate.
+    + t_heap Hu.
+    + unfold chan_facts; cbn. split; [exact F1|split; [discriminate|split; [exact F3|split; [exact F4|exact F5]]]].
+    + autorewrite with acc. change (in_use m u (set_dw c None)) with (in_use m u c). destruct (in_use m u c); reflexivity.
+    + autorewrite with acc. change (le_reg (set_dw c None)) with (le_reg c). destruct (le_reg c); reflexivity.
+    + change (le_reg (set_dw c None)) with (le_reg c). congruence.
+    + autorewrite with acc. reflexivity.
+    + intros E. destruct (c_kind c); rewrite E in Hs; discriminate.
+    + autorewrite with acc. reflexivity.
+    + intros w0. autorewrite with accw. rewrite wget_wres, Hcw, Hdw. cbn. rewrite andb_true_r, Z.eqb_sym. reflexivity.
+Qed.
+
 (* ================================================================== every step preserves the invariant *)
 Lemma step_inv m e : Inv m -> ev_ok m e = true -> Inv (fst (step m e)).
 Proof.
-  intros I Hok. destruct e as [h kind psm n mode credits|u|u|u k|u n|h f|h]; cbn [step].
+  intros I Hok. destruct e as [h kind psm n mode credits|u|u|w|u k|u n|h f|h]; cbn [step].
   - destruct (Z.eqb_spec kind K_LE); [apply inv_open_le; auto|].
     destruct (Z.eqb_spec kind K_ENH).
     + apply inv_open_enh; auto. subst kind. cbn in *. exact Hok.
     + apply inv_open_cl; auto.
   - now apply inv_close.
   - now apply inv_abort.
+  - now apply inv_cancel.
   - now apply inv_write.
   - now apply inv_grant.
   - destruct f; cbn [recv]; cbn [ev_ok] in Hok.
